@@ -7,10 +7,9 @@ import Mathlib.Algebra.Order.Field.Basic
 
 namespace Xgi.C15
 
-/-- the domain of the model: well-formed network, no empty edge, labels all ints or all strs -/
+/-- the domain of the model: well-formed network, labels all ints or all strs (empty edges allowed) -/
 structure Dom (h : Net) : Prop where
   wf : h.WF
-  nonempty : ∀ p ∈ h.edges, p.2 ≠ []
   ord : Orderable h.nodes
 
 /-- a score is NaN or lies in [0, 1] -/
@@ -22,7 +21,7 @@ theorem sed_raw_eq {h : Net} (D : Dom h) (m : Nat) (hm1 : 1 ≤ m) (x : Bool) :
     simplicialEditDistance h m x false =
       some (if (specFaces h m x).isEmpty then .undefined else .val ((specSED h m x : Nat) : Rat)) := by
   unfold simplicialEditDistance
-  rw [maximalEdges_eq D.wf D.nonempty]
+  rw [maximalEdges_eq D.wf]
   have e1 : sizeGeq (specMaximal h) (m + x.toNat) = specFaces h m x := rfl
   have e2 : buildTrie ((sizeGeq h.edges m).map (·.2)) = trieM h m := rfl
   simp only [e1, e2]
@@ -35,7 +34,7 @@ theorem sed_raw_eq {h : Net} (D : Dom h) (m : Nat) (hm1 : 1 ≤ m) (x : Bool) :
 theorem sed_norm_eq' {h : Net} (D : Dom h) (m : Nat) (hm1 : 1 ≤ m) (x : Bool) :
     simplicialEditDistance h m x true = some (specSEDNorm h m x) := by
   unfold simplicialEditDistance specSEDNorm
-  rw [maximalEdges_eq D.wf D.nonempty]
+  rw [maximalEdges_eq D.wf]
   have e1 : sizeGeq (specMaximal h) (m + x.toNat) = specFaces h m x := rfl
   have e2 : buildTrie ((sizeGeq h.edges m).map (·.2)) = trieM h m := rfl
   have e3 : h.edges.filter (fun p => decide (m ≤ p.2.length)) = sizeGeq h.edges m := rfl
